@@ -12,6 +12,11 @@ CHECKS = {
    technique="symbolic execution of mass()/mz() on z3-Real-carrying floats (own engine), one SMT query per path; ground QF_LRA obligations for the tables",
    text="mass() and mz() run natively on symbolic residue masses, water, proton, neutron, electron, element masses, Unimod/monosaccharide entry masses, modification values and loss; for each of ~2600 (quick) annotation shapes z3 is asked for values where the result differs from the sum of parts by more than the property's tolerance. unsat = holds for all real values within the stated magnitude bounds. The constant tables themselves are compared with an independent NIST/CODATA table as ground SMT obligations.",
    note="Assumes S4 (tables rebound to symbols), S5 (floats read as reals; tolerance 1e-5/2e-3 absorbs rounding), S6 (round = uninterpreted function), S7 (token round trip). Outside: every-Unimod-entry sweep, sequences beyond the enumerated ones."),
+
+ "C17": dict(engine="E1 crosshair + E2 symreal", design_ref="DESIGN.md §3 C17",
+   technique="CrossHair/z3 on the integer instantiation (unbounded values, exact ties) + own real-valued symbolic executor (z3 nonlinear reals for ppm), brute-force matcher as oracle",
+   text="get_matched_indices, match_spectra (all/closest/largest), get_fragment_matches, get_match_coverage and get_matched_intensity_percentage are executed symbolically: with unbounded symbolic integers (list lengths <=3x3 quick, <=4x4 thorough) under CrossHair, and with real-valued m/z, intensities and absolute or ppm tolerance under E2; every path's result is compared with the quadratic brute-force window. Ties at the inclusive tolerance edge and window overlaps are exactly the rare inputs a solver finds and sampling does not.",
+   note="Assumes sorted input for match_spectra (documented), tolerance >=0, m/z >0 for ppm; floats read as reals in E2 (S5) so inclusive-edge ties are claimed for the integer instantiation. Outside: binomial_score (math.comb/**), lists longer than the bound."),
 }
 
 NOT_APPLICABLE = {}
